@@ -709,6 +709,15 @@ C17_TEXTS += [
     ("remote-request-selecting-no-node", f"$source rem = {REMOTE}\nq float = {{rem?nope}}", True, [], [], None),
     ("remote-request-selecting-several-nodes", f"$source rem = {REMOTE}\nq float = {{rem?vegies.*}}", True, [], [], None),
 ]
+REMOTE_C = os.path.join(os.path.dirname(os.path.abspath(__file__)), "fixtures", "remote_constrained.dip")
+C17_TEXTS += [
+    # constraints attached to a node of a REMOTE source stay in force on the imported copy: a later assignment is judged against them
+    ("remote-import-keeps-options", f"$source src = {REMOTE_C}\nbox\n  {{src?size}}\nbox.size = {{?i}} cm", ("not", ("in", vi, [1, 2, 3])), [("box.size", vi)], [("box.size", "cm")], ["box.size"]),
+    ("remote-import-of-all-keeps-options", f"$source src = {REMOTE_C}\nbox {{src?*}}\nbox.size = {{?i}}", ("not", ("in", vi, [1, 2, 3])), [("box.size", vi), ("box.width", 25)], [("box.size", "cm")], ["box.size", "box.width", "box.label"]),
+    ("remote-import-keeps-the-condition", f"$source src = {REMOTE_C}\nbox\n  {{src?width}}\nbox.width = 5 cm", True, [], [], None),
+    ("remote-import-keeps-the-format", f"$source src = {REMOTE_C}\nbox {{src?*}}\nbox.label = 'X-1'", True, [], [], None),
+    ("remote-import-modified-within-its-constraints", f"$source src = {REMOTE_C}\nbox {{src?*}}\nbox.width = 45\nbox.label = 'xyz'\nbox.size = 3", False, [("box.size", 3), ("box.width", 45)], [("box.width", "cm")], ["box.size", "box.width", "box.label"]),
+]
 _TOL17 = ("+", ("*", 1e-4, ("abs", wb)), 1e-5)
 _GE17 = ("bounds", ("ge", ("*", wa, 100), wb), ("ge", ("*", wa, 100), ("-", wb, _TOL17)))
 _LE17 = ("bounds", ("le", ("*", wa, 100), wb), ("le", ("*", wa, 100), ("+", wb, _TOL17)))
